@@ -182,10 +182,16 @@ def standin_malformed(tier, seed):
             r = list(rows)
             r[pos] = (r[pos][0], bad_age, r[pos][2], r[pos][3])
             expect_refused(pd.DataFrame(r, columns=["ID", "TIME", "A", "B"]), f"{what} at row {pos}")
-        for bad_val, what in ((float("inf"), "infinite value"), ("x", "non-numeric value")):
+        for bad_val, what in ((float("inf"), "infinite value"), (-float("inf"), "-inf value"), ("x", "non-numeric value")):
             r = [list(x) for x in rows]
             r[pos][2] = bad_val
             expect_refused(pd.DataFrame(r, columns=["ID", "TIME", "A", "B"]), f"{what} at row {pos}")
+            if isinstance(bad_val, float):
+                # ... also when the same column has a missing value elsewhere (NaN must not hide the infinite entry)
+                other = (pos + 1) % len(r)
+                r2 = [list(x) for x in r]
+                r2[other][2] = float("nan")
+                expect_refused(pd.DataFrame(r2, columns=["ID", "TIME", "A", "B"]), f"{what} at row {pos} with a missing value in the same column")
         for bad_id, what in ((None, "missing id"), ("", "empty id"), (1.5, "float id"), (-3, "negative integer id")):
             r = [list(x) for x in rows]
             if isinstance(bad_id, (int, float)) and not isinstance(bad_id, bool) and bad_id is not None:
